@@ -991,6 +991,7 @@ fn main() {
             .map(|(k, (c, _))| (format!("{}#laws", k.split('@').next().unwrap_or(k)), c.clone()))
             .collect();
         let cfg = vgad::laws::Cfg { max_combinations: 100_000, max_real_runs: 4, ..Default::default() };
+        cx.next_group_share(360.0);
         cx.run_cases("laws", &lcases, |c| {
             let mut out = CaseOut::batch();
             vgad::laws::explore_all(c, kof(c).unwrap(), &cfg, 32, &mut out);
